@@ -102,6 +102,25 @@ func selfTest(cx *CheckCtx) []selfTestResult {
 		mine = append(mine, dir)
 		exp[dir] = d.Expected
 	}
+	// behaviour-preserving refactorings that must leave the check silent
+	bmetas, _ := filepath.Glob(filepath.Join(vd, "benign", "*", "meta.json"))
+	sort.Strings(bmetas)
+	for _, m := range bmetas {
+		var d struct {
+			Properties []string `json:"properties"`
+		}
+		b, err := os.ReadFile(m)
+		if err != nil || json.Unmarshal(b, &d) != nil {
+			continue
+		}
+		for _, p := range d.Properties {
+			if p == cx.ID {
+				dir := filepath.Dir(m)
+				mine = append(mine, dir)
+				exp[dir] = "silent"
+			}
+		}
+	}
 	if len(mine) == 0 {
 		return out
 	}
@@ -155,7 +174,10 @@ func selfTest(cx *CheckCtx) []selfTestResult {
 	os.RemoveAll(clean)
 	for _, dir := range mine {
 		name := filepath.Base(dir)
-		work := filepath.Join(tmp, name)
+		if filepath.Base(filepath.Dir(dir)) == "benign" {
+			name = "benign/" + name
+		}
+		work := filepath.Join(tmp, strings.ReplaceAll(name, "/", "_"))
 		if err := copyTree(work); err != nil {
 			out = append(out, selfTestResult{Seed: name, Expected: exp[dir], Outcome: "skipped", Note: err.Error()})
 			continue
